@@ -647,6 +647,25 @@ def replay(path):
 # the check
 
 
+def _preimport():
+    """Import (and exercise once) everything the workers need before they are forked: sixteen
+    concurrent imports of ffcx/basix/ufl cost minutes in this sandbox, a fork costs nothing."""
+    core.use_repo()
+    import basix.ufl  # noqa: F401
+    import cffi  # noqa: F401
+    import ufl  # noqa: F401
+
+    import ffcx.codegeneration.jit  # noqa: F401
+    import ffcx.compiler
+    import ffcx.naming  # noqa: F401
+    import ffcx.options
+
+    req = R.get("mass_p1_interval")
+    objs, _ = req.build()
+    ffcx.compiler.compile_ufl_objects(list(objs), ffcx.options.get_options({}), namespace="warm")
+    _ffi("float64")
+
+
 def kernel_requests(thorough):
     names = [r.name for r in R.by_tag("kern")]
     if not thorough:
@@ -661,12 +680,16 @@ def run_check(prop, tier, base, replay_path=None):
     thorough = tier == "thorough"
     verd = core.Verdicts(prop)
     names = kernel_requests(thorough)
+    if os.environ.get("VERIF_ONLY"):  # debugging aid: restrict the pool (evidence is not written)
+        names = [n for n in names if n in os.environ["VERIF_ONLY"].split(",")]
+        os.environ["VERIF_NO_EVIDENCE"] = "1"
     nruns = int(os.environ.get("VERIF_RUNS", 0)) or (20000 if thorough else 6000)
     workroot = core.scratch_dir("kern-")
     opts = ["-O2", "-O1", "-O0"] if thorough else ["-O2", "-O1"]
     jobs = [(n, o, base, nruns, thorough, workroot, None) for n in names for o in opts]
     try:
         rt()
+        _preimport()
         results = core.pmap(_request_job, jobs, wall_cap=3000)
         # determinism: two requests again, digests must match
         det_jobs = jobs[:2]
